@@ -1328,15 +1328,18 @@ func (w *Worktree) newSubmodule(fromModules, fromConfig *config.Submodule) *Subm
 	return m
 }
 
-func (w *Worktree) isSymlink(path string) bool {
-	if s, err := w.filesystem.Lstat(path); err == nil {
-		return s.Mode()&os.ModeSymlink != 0
-	}
-	return false
-}
-
 func (w *Worktree) readGitmodulesFile() (*config.Modules, error) {
-	if w.isSymlink(gitmodulesFile) {
+	// Decide whether .gitmodules is a symlink from a successful Lstat only:
+	// a link that could not be inspected must not be opened (and thereby
+	// followed) as if it were a regular file.
+	fi, err := w.filesystem.Lstat(gitmodulesFile)
+	if err != nil {
+		if os.IsNotExist(err) {
+			return nil, nil
+		}
+		return nil, err
+	}
+	if fi.Mode()&os.ModeSymlink != 0 {
 		return nil, ErrGitModulesSymlink
 	}
 
